@@ -254,6 +254,20 @@ func (s LWs) Close() (err error) {
 	return
 }
 
+// SetLevel forwards the level of the record that is about to be
+// written to every member that wants to know it (see LevelSettable).
+func (s LWs) SetLevel(lvl Level) {
+	for _, w := range s {
+		if x, ok := w.(LevelSettable); ok {
+			x.SetLevel(lvl)
+		} else if xl, ok := w.(*logwr); ok {
+			if x, ok := xl.Writer.(LevelSettable); ok {
+				x.SetLevel(lvl)
+			}
+		}
+	}
+}
+
 func (s LWs) Write(p []byte) (n int, err error) {
 	// TO/DO implement me
 	// /panic("implement me")
